@@ -218,6 +218,37 @@ func (ex *Exec) libModel(full string, e *ast.CallExpr, callee *types.Func) ([]Va
 		old := ex.load(out)
 		ex.store(out, Val{Ite(okc, nv, old.T), out.typ})
 		return []Val{{okc, boolT}}, true
+	case "sort.Slice", "sort.SliceStable":
+		// sort.Slice(x, less): x's elements are rearranged in place; afterwards no later element is less than an
+		// earlier one, every element comes from the old contents and every old element is still present
+		// (multiplicities are not tracked).
+		lit, ok := ast.Unparen(e.Args[1]).(*ast.FuncLit)
+		root := ex.rootLvalue(e.Args[0])
+		if !ok || root == nil || root.kind == lvBlank {
+			break
+		}
+		ex.libUsed[full+" (sorted permutation, multiplicities not tracked)"] = true
+		old := ex.eval(e.Args[0])
+		elem := elemTypeOf(old.Typ)
+		ex.quiet++
+		rv := ex.load(root)
+		ex.quiet--
+		ex.assert("O", "write-root["+root.str+"]", Eq(SBase(rv.T), SBase(old.T)))
+		if fc := ex.topContract(); fc != nil && fc.NoSharedAppend {
+			ex.assert("O", "sort-shared["+root.str+"]", ex.locallyOwned(old.T))
+		}
+		nb := ex.fresh("arr", SInt)
+		ex.assume(Lt(I(1), nb))
+		ns := MkSlice(nb, SOff(old.T), SLen(old.T), SCap(old.T))
+		ex.store(root, Val{MkSlice(nb, SOff(rv.T), SLen(rv.T), SCap(rv.T)), rv.Typ})
+		i, j := Const("i", SInt), Const("j", SInt)
+		n := SLen(old.T)
+		inI, inJ := And(Le(I(0), i), Lt(i, n)), And(Le(I(0), j), Lt(j, n))
+		ex.assume(Forall([]string{"i"}, Imp(inI, Exists([]string{"j"}, And(inJ, Eq(ex.elemAt(ns, elem, i), ex.elemAt(old.T, elem, j))))), ex.elemAt(ns, elem, i)))
+		ex.assume(Forall([]string{"j"}, Imp(inJ, Exists([]string{"i"}, And(inI, Eq(ex.elemAt(ns, elem, i), ex.elemAt(old.T, elem, j))))), ex.elemAt(old.T, elem, j)))
+		lessJI := ex.evalPredLit(lit, []*T{j, i}, []types.Type{typInt, typInt})
+		ex.assume(ForallMulti([]string{"i", "j"}, Imp(And(Le(I(0), i), Lt(i, j), Lt(j, n)), Not(lessJI)), []*T{ex.elemAt(ns, elem, i), ex.elemAt(ns, elem, j)}))
+		return nil, true
 	case "slices.IndexFunc", "slices.ContainsFunc":
 		ex.libUsed[full] = true
 		s := ex.eval(e.Args[0])
